@@ -46,7 +46,7 @@ theorem C10_total_findDroppedColumns (rr : RowReader) (h : TotalReader rr) (π :
     simp only
     obtain ⟨dbs, hd⟩ := C10_total_parsePGDatabase rr h dbData
     simp only [hd, ok_bind]
-    cases findDb dbs dbName with
+    cases drFindDb dbs dbName with
     | none => exact ⟨_, rfl⟩
     | some db =>
       simp only
@@ -59,7 +59,7 @@ theorem C10_total_findDroppedColumns (rr : RowReader) (h : TotalReader rr) (π :
         | some classData =>
           simp only
           obtain ⟨tables, ht⟩ := C10_total_parsePGClass rr h classData
-          obtain ⟨cols, hc⟩ := C10_total_parseDroppedColumns rr h attrData (tableNamesOf π tables)
+          obtain ⟨cols, hc⟩ := C10_total_parseDroppedColumns rr h attrData (drTableNamesOf π tables)
           simp only [ht, hc, ok_bind, pure_eq_ok]
           exact ⟨_, rfl⟩
 
@@ -73,10 +73,10 @@ theorem C10_total_scanDroppedColumns (rr : RowReader) (h : TotalReader rr) (π :
     simp only
     obtain ⟨dbs, hd⟩ := C10_total_parsePGDatabase rr h dbData
     simp only [hd, ok_bind]
-    have : ∃ r, collectM (scanOne rr π fs) dbs = .ok r := by
+    have : ∃ r, collectM (drScanOne rr π fs) dbs = .ok r := by
       apply collectM_total
       intro db
-      unfold scanOne
+      unfold drScanOne
       by_cases h1 : Spec.isPrefixB (strBytes "template") db.name = true
       · rw [if_pos h1]; exact ⟨_, rfl⟩
       · rw [if_neg h1]
@@ -98,7 +98,7 @@ theorem C10_total_getDroppedColumnSchema (rr : RowReader) (h : TotalReader rr) (
     simp only
     obtain ⟨dbs, hd⟩ := C10_total_parsePGDatabase rr h dbData
     simp only [hd, ok_bind]
-    cases findDb dbs dbName with
+    cases drFindDb dbs dbName with
     | none => exact ⟨_, rfl⟩
     | some db =>
       simp only
@@ -108,7 +108,7 @@ theorem C10_total_getDroppedColumnSchema (rr : RowReader) (h : TotalReader rr) (
         simp only
         obtain ⟨tables, ht⟩ := C10_total_parsePGClass rr h classData
         simp only [ht, ok_bind]
-        cases findTable π tables tableName with
+        cases drFindTable π tables tableName with
         | none => exact ⟨_, rfl⟩
         | some t =>
           simp only
@@ -135,7 +135,7 @@ theorem C10_total_recoverDroppedColumnData (rr : RowReader) (h : TotalReader rr)
     simp only
     obtain ⟨dbs, hd⟩ := C10_total_parsePGDatabase rr h dbData
     simp only [hd, ok_bind]
-    cases findDb dbs dbName with
+    cases drFindDb dbs dbName with
     | none => exact ⟨_, rfl⟩
     | some db =>
       simp only
@@ -145,7 +145,7 @@ theorem C10_total_recoverDroppedColumnData (rr : RowReader) (h : TotalReader rr)
         simp only
         obtain ⟨tables, ht⟩ := C10_total_parsePGClass rr h classData
         simp only [ht, ok_bind]
-        cases findTable π tables tableName with
+        cases drFindTable π tables tableName with
         | none => exact ⟨_, rfl⟩
         | some t =>
           simp only
